@@ -26,6 +26,7 @@ import (
 	"github.com/streamingfast/substreams/reqctx"
 	"github.com/streamingfast/substreams/service"
 	"github.com/streamingfast/substreams/service/config"
+	"github.com/streamingfast/substreams/storage/store"
 	"github.com/streamingfast/substreams/wasm/wazero"
 	"go.uber.org/zap"
 )
@@ -202,6 +203,7 @@ type Msg struct {
 type StoreState struct {
 	KV   map[string][]byte
 	Size uint64
+	Full bool // a full store (not a segment's partial)
 }
 
 type RunResult struct {
@@ -237,7 +239,8 @@ func snapshotStores(pipe *pipeline.Pipeline) map[string]StoreState {
 	}
 	sm := pipe.GetStoreMap()
 	for name, st := range sm {
-		ss := StoreState{KV: map[string][]byte{}, Size: st.SizeBytes()}
+		_, isFull := st.(*store.FullKV)
+		ss := StoreState{KV: map[string][]byte{}, Size: st.SizeBytes(), Full: isFull}
 		st.Iter(func(k string, v []byte) error {
 			ss.KV[k] = append([]byte(nil), v...)
 			return nil
